@@ -973,15 +973,15 @@ def str_index_range(m, mt, args, tys, dty):
 
 @summary(r'core::str::<impl str>::chars')
 def str_chars(m, mt, args, tys, dty):
-    return IterV(str_slice(args[0]))
+    return CopiedV(IterV(str_slice(args[0])))       # Chars yields char values, not references
 
 
-@summary(r"<Chars<?.*>? as Iterator>::filter::<.*>")
+@summary(r"#superseded-chars-filter")
 def chars_filter(m, mt, args, tys, dty):
     return Agg('struct', 'Filter', [args[0], args[1]])
 
 
-@summary(r"<Filter<Chars.*> as Iterator>::count")
+@summary(r"#superseded-filter-count")
 def filter_count(m, mt, args, tys, dty):
     it, f = args[0].fields
     n = 0
@@ -2545,7 +2545,7 @@ def string_with_capacity(m, mt, args, tys, dty):
 
 @summary(r'std::string::String::push')
 def string_push(m, mt, args, tys, dty):
-    c = args[1]
+    c = deref(args[1])
     deref(args[0]).items.append(ord(c) if isinstance(c, str) else c)
     return UNIT()
 
@@ -3360,3 +3360,40 @@ def _unused_err_fmt(m, mt, args, tys, dty):
 def err_display_fmt(m, mt, args, tys, dty):
     deref(args[1]).out.extend(ord(c) for c in '<std/num-bigint parse error text>')
     return mk_enum('Result', 'Ok', [UNIT()])
+
+
+
+@summary(r'<Option<.*> as PartialEq>::(eq|ne)')
+def option_eq(m, mt, args, tys, dty):
+    a, b = deref(args[0]), deref(args[1])
+    neg = mt.group(1) == 'ne'
+    if a.variant != b.variant:
+        return neg
+    if a.variant == 'None':
+        return not neg
+    x, y = deref(a.fields[0]), deref(b.fields[0])
+    if isinstance(x, Agg) or isinstance(y, Agg):
+        raise Unsupported('Option<aggregate> equality')
+    r = x == y
+    if not neg:
+        return r
+    return (not r) if isinstance(r, bool) else z3.Not(r)
+
+
+@summary(r'(?:std::ops::|core::ops::)?Range(Inclusive)?::<(%s)>::contains::<.*>' % INT)
+def range_contains(m, mt, args, tys, dty):
+    r = deref(args[0])
+    x = deref(args[1])
+    lo, hi = r.fields[0], r.fields[1]
+    if mt.group(1):
+        c = [x >= lo, x <= hi]
+    else:
+        c = [x >= lo, x < hi]
+    if all(isinstance(v, bool) for v in c):
+        return all(c)
+    return z3.And([v for v in c if not isinstance(v, bool)] + [z3.BoolVal(v) for v in c if isinstance(v, bool)])
+
+
+@summary(r'<(?:std::ops::|core::ops::)?Range(?:Inclusive)?<(%s)> as (?:std::ops::|core::ops::)?RangeBounds<.*>>::contains::<.*>' % INT)
+def range_contains_trait(m, mt, args, tys, dty):
+    return range_contains(m, re.match(r'(?:std::ops::|core::ops::)?Range(Inclusive)?::<(%s)>::contains::<.*>' % INT, 'Range::<i64>::contains::<i64>'), args, tys, dty)
